@@ -253,7 +253,7 @@ def run(chk):
                        "a file is abstracted to package line, imports, class and function names"]
     chk.prove()
     rng = chk.rng
-    n = 3000 if chk.thorough else 450
+    n = 20000 if chk.thorough else 450
     layouts = []
     for fn, o in load_corpus("C19"):
         if "layout" in o:
